@@ -155,6 +155,39 @@ pub fn cli_later_operand(seed: u64, idx: usize, acc: &mut Acc) {
     }
 }
 
+/// xt's own MessagePack / YAML output for maps whose keys are NOT strings (integers, booleans, null, floats,
+/// sequences) with 1..70 entries - a root that only MessagePack and YAML can hold - is recognised again.
+pub fn non_string_key_roots(seed: u64, idx: usize, acc: &mut Acc) {
+    let mut rng = Rng::derive(seed, 0xc10b, idx as u64);
+    let n = *rng.pick(&[1usize, 2, 15, 16, 17, 40, 70]);
+    let kind = idx % 5;
+    let entries: Vec<(Val, Val)> = (0..n)
+        .map(|i| {
+            let k = match kind {
+                0 => Val::Int(i as i128),
+                1 => if i == 0 { Val::Null } else { Val::Int(-(i as i128)) },
+                2 => if i == 0 { Val::Bool(true) } else if i == 1 { Val::Bool(false) } else { Val::Int(1000 + i as i128) },
+                3 => Val::Float((i as f64 + 0.5).to_bits()),
+                _ => Val::Seq(vec![Val::Int(i as i128)]),
+            };
+            (k, Val::Str(format!("v{i}")))
+        })
+        .collect();
+    let doc = Val::Map(entries);
+    let mut feats = Feats::default();
+    let src = spell(Fmt::Msgpack, &doc, &mut rng, &mut feats, true);
+    for f in [Fmt::Msgpack, Fmt::Yaml] {
+        let own = run_slice(&src, Some(Fmt::Msgpack), f);
+        if !own.verdict.is_ok() {
+            continue;
+        }
+        acc.count("own_outputs_with_non_string_keys");
+        for x in [Fmt::Msgpack, Fmt::Yaml] {
+            judge(&own.out, f, x, &[Sched::All, Sched::Fixed(3), Sched::Fixed(4096)], acc);
+        }
+    }
+}
+
 pub fn run(ctx: &Ctx) -> i32 {
     let n = ctx.size(12000, 1500000);
     let seed = ctx.seed;
@@ -299,12 +332,15 @@ pub fn run(ctx: &Ctx) -> i32 {
         }
     });
     let mut acc = acc;
+    let n_keys = ctx.size(210, 7000);
+    let k_acc = crate::par::run(n_keys, 8, |i, acc| non_string_key_roots(seed, i, acc));
+    acc.merge(k_acc);
     let n_cli = ctx.size(96, 960);
     let cli = crate::par::run(n_cli, 2, |i, acc| cli_later_operand(seed, i, acc));
     acc.merge(cli);
-    let rule = format!("{} document sets (1-5 collection-rooted documents; maps get a first key from a pool of {} detection-hostile keys: empty, numeric-looking, quoted, YAML/TOML indicators, non-ASCII incl. U+0080-U+07FF) x 4 output formats (TOML: first document, TOML-representable), every 600th set (quick: every 200th) a single root map/array of 32 767..70 000 entries, every 100th a map holding 33-100 KB of multi-byte characters behind 0..7 ASCII bytes (read whole and 16 384 / 8192 / 16 383 / 16 385 / 65 536 bytes at a time); every output is offered to the detect hook as a slice and under 3 read schedules, and xt(None->X) is compared with xt(F->X) in slice and reader mode; the outputs of one set are also fed one after the other through ONE translator without a source format; at the command line, own output as a later operand without a telling name (a file, or '-') behind a first operand whose extension names each format; distinct non-trivial = distinct document sets", n, FIRST_KEYS.len());
+    let rule = format!("{} document sets (1-5 collection-rooted documents; maps get a first key from a pool of {} detection-hostile keys: empty, numeric-looking, quoted, YAML/TOML indicators, non-ASCII incl. U+0080-U+07FF) x 4 output formats (TOML: first document, TOML-representable), every 600th set (quick: every 200th) a single root map/array of 32 767..70 000 entries, every 100th a map holding 33-100 KB of multi-byte characters behind 0..7 ASCII bytes (read whole and 16 384 / 8192 / 16 383 / 16 385 / 65 536 bytes at a time); every output is offered to the detect hook as a slice and under 3 read schedules, and xt(None->X) is compared with xt(F->X) in slice and reader mode; the outputs of one set are also fed one after the other through ONE translator without a source format; own MessagePack and YAML output for root maps with 1..70 non-string keys (integers, null, booleans, floats, sequences); at the command line, own output as a later operand without a telling name (a file, or '-') behind a first operand whose extension names each format; distinct non-trivial = distinct document sets", n, FIRST_KEYS.len());
     ev::finish(
-        Finish { ctx, level: "exploration", rule, assumptions: vec!["TOML exceptions decided by the harness's hand-written JSON reader and libyaml-event reader, not by xt".into(), "an empty table is written to TOML as zero bytes; that empty text must still be recognised as TOML".into()], extra: serde_json::Map::new(), exhaustive: false, min_distinct: 1000, must_reach: vec![("pipeline_equivalence_checked".into(), 1000), ("huge_root_collections".into(), 5), ("cli_own_output_as_a_later_operand".into(), 40), ("long_multibyte_text_documents".into(), 20), ("detected_toml_as_toml".into(), 100), ("detected_yaml_as_yaml".into(), 100), ("detected_msgpack_as_msgpack".into(), 100), ("detected_json_as_json".into(), 100), ("own_outputs_through_one_translator".into(), 1000), ("json_output_after_toml_or_yaml_on_one_translator".into(), 1000)] },
+        Finish { ctx, level: "exploration", rule, assumptions: vec!["TOML exceptions decided by the harness's hand-written JSON reader and libyaml-event reader, not by xt".into(), "an empty table is written to TOML as zero bytes; that empty text must still be recognised as TOML".into()], extra: serde_json::Map::new(), exhaustive: false, min_distinct: 1000, must_reach: vec![("pipeline_equivalence_checked".into(), 1000), ("huge_root_collections".into(), 5), ("cli_own_output_as_a_later_operand".into(), 40), ("own_outputs_with_non_string_keys".into(), 100), ("long_multibyte_text_documents".into(), 20), ("detected_toml_as_toml".into(), 100), ("detected_yaml_as_yaml".into(), 100), ("detected_msgpack_as_msgpack".into(), 100), ("detected_json_as_json".into(), 100), ("own_outputs_through_one_translator".into(), 1000), ("json_output_after_toml_or_yaml_on_one_translator".into(), 1000)] },
         acc,
     )
 }
